@@ -128,6 +128,12 @@ pub enum Ans {
     CnameTooLong,
     /// [T->U, U addr]
     ChainFromT,
+    /// > 2 KiB response: [V TXT pad, F1 addr with F1 stored at offset 0x40C, V TXT pad, F2 addr with
+    /// F2 stored at 0x80C, <pointer to 0x40C> addr]: three address records for FOREIGN names; the
+    /// last owner is a compression pointer to an offset >= 0x400 (correct reading: nothing for Q)
+    BigForeign,
+    /// > 1 KiB GOOD response: [Q TXT pad, Q->T with T stored beyond 0x400, <pointer to it> addr]
+    BigCname,
 }
 #[derive(Clone, Copy, Debug, PartialEq, Eq, Hash, PartialOrd, Ord)]
 pub enum Pos {
@@ -135,6 +141,8 @@ pub enum Pos {
     Owner0,
     Rdata0,
     Owner1,
+    /// owner name of the last record (only tagged when there are more than two records)
+    OwnerLast,
 }
 #[derive(Clone, Copy, Debug, PartialEq, Eq, Hash, PartialOrd, Ord)]
 pub enum Enc {
@@ -194,6 +202,9 @@ pub enum RData {
     A([u8; 4]),
     Aaaa([u8; 16]),
     Cname(Name),
+    /// record of another type (TXT) whose rdata is zero padding up to this absolute offset, so
+    /// that the NEXT record starts exactly there
+    PadTo(usize),
 }
 #[derive(Clone, Debug)]
 pub struct Rec {
@@ -254,6 +265,27 @@ pub fn records(ns: &NameSet, ans: Ans, v6: bool, result_slots: usize) -> Vec<Rec
             ]
         }
         Ans::ChainFromT => vec![cname(ns, T, U), addr(ns, U, 1, v6)],
+        Ans::BigForeign => {
+            let suffix = ns.q.last().cloned().unwrap_or_default();
+            let f = |l: &str| -> Name { vec![l.as_bytes().to_vec(), suffix.clone()] };
+            let mk = |owner: Name, idx: u8| {
+                let mut r = addr(ns, V, idx, v6);
+                r.owner = owner;
+                r
+            };
+            vec![
+                Rec { owner: ns.v.clone(), data: RData::PadTo(0x40c) },
+                mk(f("f1"), 11),
+                Rec { owner: ns.v.clone(), data: RData::PadTo(0x80c) },
+                mk(f("f2"), 12),
+                mk(f("f1"), 13),
+            ]
+        }
+        Ans::BigCname => vec![
+            Rec { owner: ns.q.clone(), data: RData::PadTo(0x410) },
+            cname(ns, Q, T),
+            addr(ns, T, 1, v6),
+        ],
     }
 }
 
@@ -262,7 +294,7 @@ struct Asm {
     compress: bool,
     /// first occurrence of each name suffix (flat wire form) -> offset
     seen: Vec<(Vec<u8>, usize)>,
-    pos: [Option<usize>; 4],
+    pos: [Option<usize>; 5],
     /// (offset of a 2-byte pointer placeholder, target)
     patches: Vec<(usize, Target)>,
     forced: Vec<(Pos, Target)>,
@@ -278,6 +310,7 @@ fn pidx(p: Pos) -> usize {
         Pos::Owner0 => 1,
         Pos::Rdata0 => 2,
         Pos::Owner1 => 3,
+        Pos::OwnerLast => 4,
     }
 }
 impl Asm {
@@ -337,7 +370,7 @@ pub fn build_payload(ns: &NameSet, qtype: u16, spec: &RSpec, txid: u16, result_s
         buf: Vec::with_capacity(96),
         compress: spec.enc != Enc::Plain,
         seen: vec![],
-        pos: [None; 4],
+        pos: [None; 5],
         patches: vec![],
         forced,
     };
@@ -372,6 +405,7 @@ pub fn build_payload(ns: &NameSet, qtype: u16, spec: &RSpec, txid: u16, result_s
         let tag = match i {
             0 => Some(Pos::Owner0),
             1 => Some(Pos::Owner1),
+            _ if i + 1 == recs.len() => Some(Pos::OwnerLast),
             _ => None,
         };
         a.name(&r.owner, tag, true);
@@ -389,6 +423,14 @@ pub fn build_payload(ns: &NameSet, qtype: u16, spec: &RSpec, txid: u16, result_s
                 a.buf.extend_from_slice(&[0, 0, 0, 60]);
                 a.u16(16);
                 a.buf.extend_from_slice(x);
+            }
+            RData::PadTo(target) => {
+                a.u16(16); // TXT
+                a.u16(1);
+                a.buf.extend_from_slice(&[0, 0, 0, 60]);
+                let l = target.saturating_sub(a.buf.len() + 2);
+                a.u16(l as u16);
+                a.buf.extend(std::iter::repeat(0u8).take(l));
             }
             RData::Cname(n) => {
                 a.u16(T_CNAME);
